@@ -295,7 +295,7 @@ func TestC10EventStream(t *testing.T) {
 			w.pauseMs = rapid.IntRange(5, 40).Draw(t, "pause_ms")
 		}
 		w.writers = rapid.IntRange(0, 2).Draw(t, "writers")
-		if err := runC10(w); err != nil {
+		if err := watchdog(scenarioLimit, func() error { return runC10(w) }); err != nil {
 			evid.ReplayNote("C10", "TestC10EventStream", w.describe()+err.Error())
 			t.Fatalf("%s%v", w.describe(), err)
 		}
